@@ -188,6 +188,9 @@ def shapelyBoxRing (b : IBox) : List ICell :=
 def defaultValue : Rat := 1
 def defaultFill : Rat := 0
 def defaultAllTouched : Bool := false
+/-- `xdim`, `ydim`: geometry times are looked up on the "time" axis, frequencies on "frequency" -/
+def defaultXDim : String := "time"
+def defaultYDim : String := "frequency"
 
 /-- `rasterize(geometries, array)` with `values`, `fill`, `all_touched` left out as given -/
 def rasterizeD (B : Burner) (t : Template) (geoms : List Geom) (values : Option Values) (fill : Option Rat)
